@@ -822,6 +822,7 @@ type replayT struct {
 	Rearm *RearmCase `json:"rearm"`
 	Range *RangeCase `json:"range"`
 	Select *SelectCase `json:"select"`
+	Via    string      `json:"via"`
 }
 
 func main() {
@@ -864,6 +865,12 @@ func main() {
 					return err
 				}
 				c.Add(*cs)
+			case "empty":
+				cs, err := runEmpty(srv, rp.Via)
+				if err != nil {
+					return err
+				}
+				c.Add(*cs)
 			case "rearm":
 				cs, err := runRearm(srv, *rp.Rearm)
 				if err != nil {
@@ -899,10 +906,25 @@ func main() {
 		if ns > 1 {
 			sjobs[1] = SelectCase{N0: 1, Rounds: [][2]int{{0, 0}, {0, 1}, {2, 0}, {0, 0}}}
 		}
+		// readers over a source expression that matches no partition: the plain waiting request (both queriers), then
+		// streams whose partition is created by the first record appended (after an empty wait / before the first request
+		// is answered ...). The backend request comes first: if it never returns, the others are not made.
+		sjobs = append(sjobs,
+			SelectCase{NoPart: true, Via: "backend", Rounds: [][2]int{{0, 0}, {2, 0}, {0, 1}}},
+			SelectCase{NoPart: true, Rounds: [][2]int{{0, 0}, {1, 0}, {0, 0}}},
+			SelectCase{NoPart: true, Rounds: [][2]int{{0, 0}, {0, 0}, {1, 0}, {0, 1}, {1, 0}}},
+			SelectCase{NoPart: true, Via: "backend", Rounds: [][2]int{{1, 0}, {0, 1}}},
+		)
+		sels = append(sels, make([]*Case, 4)...)
+		serr = append(serr, make([]error, 4)...)
+		empties := make([]*Case, 2)
+		eerr := make([]error, 2)
 		wg.Add(1)
 		go func() {
 			defer wg.Done()
-			Parallel(ns, 4, func(i int) { sels[i], serr[i] = runSelect(srv, sjobs[i]) })
+			empties[0], eerr[0] = runEmpty(srv, "backend")
+			empties[1], eerr[1] = runEmpty(srv, "rpc")
+			Parallel(len(sjobs), 4, func(i int) { sels[i], serr[i] = runSelect(srv, sjobs[i]) })
 		}()
 		// corpus: the witness of C11_no_skip_refuted on the implementation (3 readable, reader at 3, a flush of 2
 		// between the end-of-data decision and the position it is left with)
@@ -971,11 +993,21 @@ func main() {
 			}
 			c.Add(*rearm[i])
 		}
+		for i := range empties {
+			if eerr[i] != nil {
+				return eerr[i]
+			}
+			if empties[i] != nil {
+				c.Add(*empties[i])
+			}
+		}
 		for i := range sels {
 			if serr[i] != nil {
 				return serr[i]
 			}
-			c.Add(*sels[i])
+			if sels[i] != nil {
+				c.Add(*sels[i])
+			}
 		}
 		latMu.Lock()
 		if len(latencies) > 0 {
